@@ -341,6 +341,35 @@ func runC03(c *Ctx) {
 				}
 			})
 			c.Check("I4-positional", fmt.Sprintf("%s#call%d", fnName(f), k), okA && okR, in.Pos(), "the host function must be called with the caller's arguments coerced by ParamsTypeChange against that same function, and its results reduced by GetRawTypeValue")
+			// the method called is the one of that name on that object, found anew on every
+			// call: MethodByName(name) of the object given (a position remembered from another
+			// call or another type may be another method)
+			if spec[2] == "InvokeFunction" && len(f.Params) >= 2 {
+				okM := true
+				why := ""
+				for _, pv := range x.ValuesAt(cc.Args[0], in) {
+					mc, isCall := x.Origin(pv.V).(*ssa.Call)
+					if pv.V == nil || !isCall {
+						okM, why = false, x.Describe(pv.V)
+						continue
+					}
+					nm, mcc := reflectMethod(mc)
+					if mcc == nil || nm != "MethodByName" || len(mcc.Args) < 2 || x.Origin(mcc.Args[1]) != ssa.Value(f.Params[1]) {
+						okM, why = false, x.Describe(pv.V)
+						continue
+					}
+					root := x.Origin(mcc.Args[0])
+					if ec, isE := root.(*ssa.Call); isE {
+						if n2, c2 := reflectMethod(ec); c2 != nil && (n2 == "Elem" || n2 == "Addr") {
+							root = x.Origin(c2.Args[0])
+						}
+					}
+					if root != ssa.Value(f.Params[0]) {
+						okM, why = false, "a method of "+x.Describe(mcc.Args[0])
+					}
+				}
+				c.Check("I4-positional", fmt.Sprintf("%s#call%d/method-by-name", fnName(f), k), okM, in.Pos(), "the function called must be MethodByName(the given name) of the given object: %s", orStr(why, "ok"))
+			}
 		})
 		c.Check("I4-positional", fnName(f)+"#calls-the-host-function", k > 0, f.Pos(), "%s makes %d reflect call(s) of the host function", fnName(f), k)
 	}
@@ -462,68 +491,122 @@ func (c *Ctx) ruleI3(kinds map[int64]string) {
 	for p, t := range tagOf {
 		classOfTag[t] = p
 	}
-	// ParamsTypeChange
+	// ParamsTypeChange: for every pair (kind of parameter i, kind of argument i) the function is
+	// explored with those two kinds as constants; exactly one conversion `params[i] =
+	// reflect.ValueOf(T(params[i].Acc()))` is reached, T is the parameter's kind and Acc the
+	// accessor of the argument's class — however the table is nested, split into helpers or
+	// keyed (kind constants, case lists, a default, the tag of getNumType, a class helper)
 	if f := c.MustFn("I3-ParamsTypeChange", "internal/core", "", "ParamsTypeChange"); f != nil {
 		x := c.Index(f)
-		rows := map[string]bool{}
-		reachP := c.srcClassesAt(f, ssa.Value(f.Params[1]), kinds, tagOfKind)
+		params := ssa.Value(f.Params[1])
+		// the conversion sites: reflect.ValueOf(..) calls whose result can be stored into params[i]
+		type site struct {
+			vo  *ssa.Call
+			idx ssa.Value
+		}
+		var sites []site
+		seenSite := map[*ssa.Call]bool{}
 		eachInstr(f, func(in ssa.Instruction) {
 			st, ok := in.(*ssa.Store)
 			if !ok {
 				return
 			}
 			ia, ok := st.Addr.(*ssa.IndexAddr)
-			if !ok || x.Origin(ia.X) != ssa.Value(f.Params[1]) {
+			if !ok || x.Origin(ia.X) != params {
 				return
 			}
-			vo, ok := x.Origin(st.Val).(*ssa.Call)
-			if !ok || !fnIs(vo.Call.StaticCallee(), "reflect", "", "ValueOf") {
-				return
-			}
-			acc, recv, typ := x.accessorOf(vo.Call.Args[0])
-			if acc == "" {
-				return
-			}
-			tag, ks := x.caseConsts(st.Block())
-			if len(ks) != 1 {
-				return
-			}
-			kname := kinds[ks[0]]
-			if !numeric[kname] {
-				return
-			}
-			key := fmt.Sprintf("ParamsTypeChange#%s<-%s", kname, accessorClass[acc])
-			rows[key] = true
-			// target kind == K
-			okT := basicName(typ) == strings.ToLower(kname)
-			// the accessor is the one of the source's class: the classes of the argument kinds
-			// with which this conversion is reached (by whatever test of getNumType's tag)
-			wantCls := accessorClass[acc]
-			okTag := oneClass(reachP[st.Block()]) == wantCls
-			// the value read is the same parameter i, and the kind tested is In(i) of the same i
-			okIdx := false
-			if ru, isU := x.Origin(recv).(*ssa.UnOp); isU {
-				if ria, isIA := ru.X.(*ssa.IndexAddr); isIA && x.sameValue(ria.Index, ia.Index) && x.Origin(ria.X) == ssa.Value(f.Params[1]) {
-					okIdx = true
+			for _, pv := range x.PossibleValues(st.Val) {
+				if pv.V == nil {
+					continue
 				}
-			}
-			if kc, isCall := tag.(*ssa.Call); isCall && okIdx {
-				okIdx = false
-				var krecv ssa.Value
-				if kc.Call.IsInvoke() {
-					krecv = kc.Call.Value
-				} else if len(kc.Call.Args) > 0 {
-					krecv = kc.Call.Args[0]
-				}
-				if krecv != nil {
-					if inCall, isIn := x.Origin(krecv).(*ssa.Call); isIn && inCall.Call.IsInvoke() && inCall.Call.Method.Name() == "In" && len(inCall.Call.Args) == 1 {
-						okIdx = x.sameValue(inCall.Call.Args[0], ia.Index)
+				if vo, isCall := x.Origin(pv.V).(*ssa.Call); isCall && fnIs(vo.Call.StaticCallee(), "reflect", "", "ValueOf") && !seenSite[vo] {
+					if acc, _, _ := x.accessorOf(vo.Call.Args[0]); acc != "" {
+						seenSite[vo] = true
+						sites = append(sites, site{vo, ia.Index})
 					}
 				}
 			}
-			c.Check("I3-ParamsTypeChange", key, okT && okTag && okIdx, st.Pos(), "parameter kind %s, source class %s: converts to %s (want %s), accessor matches the tag: %v, same index for In(i)/params[i]: %v", kname, wantCls, basicName(typ), strings.ToLower(kname), okTag, okIdx)
 		})
-		c.Check("I3-ParamsTypeChange", "rows", len(rows) == 36, f.Pos(), "%d of the 36 (parameter kind x source class) rows found", len(rows))
+		// the kind of parameter i: Kind() of tf.In(i)
+		var inCalls []*ssa.Call
+		eachInstr(f, func(in ssa.Instruction) {
+			if call, ok := in.(*ssa.Call); ok && call.Call.IsInvoke() && call.Call.Method.Name() == "In" && len(call.Call.Args) == 1 {
+				inCalls = append(inCalls, call)
+			}
+		})
+		rows := map[string]bool{}
+		type rowRes struct {
+			ok  bool
+			why string
+			pos token.Pos
+		}
+		res := map[string]*rowRes{}
+		var keys []string
+		for _, T := range numericKinds {
+			for _, S := range numericKinds {
+				env := &kenv{x: x, kindOf: map[ssa.Value]string{params: S}}
+				for _, ic := range inCalls {
+					env.kindOf[ic] = T
+				}
+				SS := S
+				env.callInt = func(call *ssa.Call) (int64, bool) {
+					if !calleeIs(call, pCore, "", "getNumType") || len(call.Call.Args) != 1 || env.rootValue(call.Call.Args[0]) == nil {
+						return 0, false
+					}
+					t, ok := tagOfKind[SS]
+					return t, ok
+				}
+				env.explore(f, kinds, nil)
+				kname := strings.ToUpper(T[:1]) + T[1:]
+				key := fmt.Sprintf("ParamsTypeChange#%s<-%s", kname, classOfKind(S))
+				r := res[key]
+				if r == nil {
+					r = &rowRes{ok: true, pos: f.Pos()}
+					res[key] = r
+					keys = append(keys, key)
+				}
+				var hit []site
+				for _, st := range sites {
+					if env.visited[st.vo.Block()] {
+						hit = append(hit, st)
+					}
+				}
+				if len(hit) != 1 {
+					r.ok, r.why = false, fmt.Sprintf("argument kind %s: %d conversions can be reached (want exactly one)", S, len(hit))
+					continue
+				}
+				rows[key] = true
+				h := hit[0]
+				r.pos = h.vo.Pos()
+				acc, recv, typ := x.accessorOf(h.vo.Call.Args[0])
+				if basicName(typ) != T {
+					r.ok, r.why = false, fmt.Sprintf("argument kind %s: converts to %s", S, basicName(typ))
+				}
+				if accessorClass[acc] != classOfKind(S) {
+					r.ok, r.why = false, fmt.Sprintf("argument kind %s is read with .%s()", S, acc)
+				}
+				// the value read is parameter i itself, and the kind tested is In(i) of the same i
+				okIdx := false
+				if ru, isU := x.Origin(recv).(*ssa.UnOp); isU {
+					if ria, isIA := ru.X.(*ssa.IndexAddr); isIA && x.sameValue(ria.Index, h.idx) && x.Origin(ria.X) == params {
+						okIdx = true
+					}
+				}
+				for _, ic := range inCalls {
+					if !x.sameValue(ic.Call.Args[0], h.idx) {
+						okIdx = false
+					}
+				}
+				if !okIdx {
+					r.ok, r.why = false, "the argument read, the position stored and the parameter whose kind is tested are not the same i"
+				}
+			}
+		}
+		for _, key := range keys {
+			r := res[key]
+			c.Check("I3-ParamsTypeChange", key, r.ok, r.pos, "%s", orStr(r.why, "converted to the parameter's kind with the accessor of the argument's class, for every argument kind of the class"))
+		}
+		c.Check("I3-ParamsTypeChange", "rows", len(rows) == 36 && len(inCalls) > 0, f.Pos(), "%d of the 36 (parameter kind x source class) rows found", len(rows))
 	}
 	// GetWantedValue
 	if f := c.MustFn("I3-GetWantedValue", "internal/core", "", "GetWantedValue"); f != nil {
@@ -664,7 +747,6 @@ func (c *Ctx) ruleI3(kinds map[int64]string) {
 	c.Min("I3-ParamsTypeChange", 37)
 	c.Min("I3-GetWantedValue", 10)
 }
-
 
 // srcClassesAt explores f once per numeric kind of the value src (a parameter, or a slice
 // parameter whose elements are the values) and lists, per block, the classes (int, uint,
